@@ -44,6 +44,22 @@ const STRINGS: [&str; 34] = [
     "\\t\\n\\x1b",
 ];
 
+/// Code points that tools like to treat specially (all of them are ordinary characters to FML): C0 and C1
+/// controls other than CR / LF, bidi and other format controls, zero-width and invisible characters, line
+/// and paragraph separators, BOM, soft hyphen, combining marks, variation selectors, tag characters,
+/// private use, noncharacters, the neighbours of the surrogate range, replacement and object-replacement
+/// characters, fillers, the last code point.
+pub const SPECIAL_CODEPOINTS: [u32; 96] = [
+    0x00, 0x01, 0x07, 0x08, 0x09, 0x0b, 0x0c, 0x0e, 0x1a, 0x1b, 0x1f, 0x7f, 0x80, 0x84, 0x85, 0x8d, 0x90, 0x9b, 0x9c, 0x9f, 0xa0, 0xad, 0x300, 0x301, 0x34f, 0x36f, 0x61c, 0x70f, 0x115f, 0x1160, 0x17b4, 0x180e,
+    0x200b, 0x200c, 0x200d, 0x200e, 0x200f, 0x2028, 0x2029, 0x202a, 0x202b, 0x202c, 0x202d, 0x202e, 0x202f, 0x205f, 0x2060, 0x2061, 0x2062, 0x2063, 0x2064, 0x2066, 0x2067, 0x2068, 0x2069, 0x206a, 0x206f, 0x2400,
+    0x3000, 0x3164, 0xd7ff, 0xe000, 0xf8ff, 0xfdd0, 0xfe00, 0xfe0f, 0xfeff, 0xffa0, 0xfff9, 0xfffa, 0xfffb, 0xfffc, 0xfffd, 0xfffe, 0xffff, 0x10000, 0x1d173, 0x1d17a, 0x1f3fb, 0x1f9b0, 0x1fffe, 0x1ffff,
+    0x2fffe, 0xe0001, 0xe0020, 0xe0041, 0xe007f, 0xe0100, 0xe01ef, 0xf0000, 0xffffd, 0xfffff, 0x100000, 0x10fffd, 0x10fffe, 0x10ffff,
+];
+
+pub fn special_char(rng: &mut Rng) -> char {
+    char::from_u32(SPECIAL_CODEPOINTS[rng.below(SPECIAL_CODEPOINTS.len())]).unwrap_or('\u{fffd}')
+}
+
 pub struct Opts {
     /// allow raw CR / LF inside string constants (not for C17)
     pub line_breaks: bool,
@@ -51,7 +67,19 @@ pub struct Opts {
 }
 
 fn random_string(rng: &mut Rng, o: &Opts) -> String {
-    match rng.below(12) {
+    match rng.below(14) {
+        // one to four special code points among a few letters (never CR / LF: `line_breaks` governs those)
+        12 | 13 => {
+            let mut s = String::new();
+            for _ in 0..(1 + rng.below(8)) {
+                if rng.coin() {
+                    s.push(special_char(rng));
+                } else {
+                    s.push(char::from_u32(0x61 + rng.below(26) as u32).unwrap());
+                }
+            }
+            s
+        }
         0..=6 => STRINGS[rng.below(STRINGS.len())].to_string(),
         7 => {
             // random unicode, any length up to 40
